@@ -20,8 +20,10 @@ mod streams;
 mod util;
 
 mod c01;
+mod c02;
 mod c03;
 mod c04;
+mod c05;
 mod c06;
 mod c10;
 mod c19;
@@ -41,8 +43,10 @@ struct Check {
 fn checks() -> Vec<Check> {
     vec![
         Check { id: "C01", level: "exploration", run: c01::run, replay: c01::replay },
+        Check { id: "C02", level: "exploration", run: c02::run, replay: c02::replay },
         Check { id: "C03", level: "model_checking", run: c03::run, replay: c03::replay },
         Check { id: "C04", level: "model_checking", run: c04::run, replay: c04::replay },
+        Check { id: "C05", level: "exploration", run: c05::run, replay: c05::replay },
         Check { id: "C06", level: "exploration", run: c06::run, replay: c06::replay },
         Check { id: "C10", level: "fault_enumeration", run: c10::run, replay: c10::replay },
         Check { id: "C19", level: "exploration", run: c19::run, replay: c19::replay },
